@@ -35,7 +35,7 @@ def mk_case(lens, dtype, vals, op, n=1, vclass="small", recv="fresh", rewrite=No
 
 def run(case):
     r = run_once(case, None)
-    if r["verdict"] != "held" or not case.get("rewrite") or sum(case["lens"]) == 0:
+    if r["verdict"] != "held" or not case.get("rewrite") or sum(case["lens"]) == 0 or case.get("recv") == "readonly":
         return r
     # the same object is written to in place and the operation is applied again: results must follow the new content
     # (stale caches keyed on the object or on its buffer show up here)
